@@ -677,8 +677,17 @@ def run(ctx):
                 "reference; non-trivial = distinct (relation, mode, #programs) classes, stochastic features seen active "
                 "in the reference outputs, and distinct clean model schedules (drv_effects vs Python rendering)")
     repo = os.environ.get("LDAR_REPO") or None
+    extractor_selftest(ctx)
     tables = table_stage(ctx, repo)
-    core.lean_stage(ctx, MODULE, FILE, drivers=["drv_effects"])
+    try:
+        core.lean_stage(ctx, MODULE, FILE, drivers=["drv_effects"])
+    finally:
+        if repo and os.path.abspath(repo) != "/repo":
+            # the table file is shared: after a run against a scratch copy put the real tree's table back
+            try:
+                EX.regenerate("/repo")
+            except Exception:
+                pass
     model_stage(ctx)
     tgt, d = direct_equipment_constant(ctx, repo)
     if tgt is not None and tgt not in {m["target"] for m in tables["sharedMutations"]}:
@@ -729,5 +738,168 @@ def replay(ctx, data):
         print("first differing file:", d["file"], "kind:", d["kind"])
         print(json.dumps(d["diff"], indent=1))
         return 1
+    finally:
+        shutil.rmtree(root, ignore_errors=True)
+
+
+# ------------------------------------------------------------------------------------------------
+# extractor self-test: a synthetic source tree with one instance of every pattern the extractor claims to see
+# ------------------------------------------------------------------------------------------------
+SELFTEST_FILES = {
+    "ldar_sim_run.py": "from simulation_stub import go\nimport ldar_sim\nfrom initialization import initialize_emissions, initialize_infrastructure\n",
+    "ldar_sim.py": (
+        "import numpy as np\n"
+        "class LdarSim:\n"
+        "    def run_simulation(self):\n"
+        "        while not self.done():\n"
+        "            if self._preseed:\n"
+        "                np.random.seed(1)\n"
+        "            self.step()\n"),
+    "initialization/__init__.py": "",
+    "initialization/initialize_emissions.py": (
+        "import numpy as np\n"
+        "def initialize_emissions(n, infra, preseed):\n"
+        "    for i in range(n):\n"
+        "        infra.generate_emissions(i)\n"          # NOT seeded first -> seeded false
+        "    for i in range(n):\n"
+        "        if preseed:\n"
+        "            np.random.seed(i)\n"
+        "        infra.generate_emissions(i)\n"),
+    "initialization/initialize_infrastructure.py": (
+        "import numpy as np\n"
+        "from worldstub import Infrastructure\n"
+        "def initialize_infrastructure(p):\n"
+        "    if p:\n"
+        "        np.random.seed(0)\n"
+        "        infra = Infrastructure(1)\n"
+        "    else:\n"
+        "        infra = Infrastructure(2)\n"
+        "    return infra\n"),
+    "worldstub.py": "class Infrastructure:\n    def __init__(self, x):\n        self.x = x\n",
+    "consts.py": (
+        "COLS = ['a']\n"
+        "NAME = 'x'\n"
+        "class K:\n"
+        "    D = {'a': 1}\n"
+        "    class Inner:\n"
+        "        L = [1]\n"),
+    "simulation_stub.py": (
+        "import random\n"
+        "import random as rnd\n"
+        "from random import choice as pick\n"
+        "import numpy as np\n"
+        "import numpy\n"
+        "from numpy import random as nr\n"
+        "from numpy.random import binomial\n"
+        "from scipy import stats\n"
+        "import consts\n"
+        "from consts import COLS, K as KK\n"
+        "COUNTER = 0\n"
+        "CACHE = {}\n"
+        "def go(df, dist):\n"
+        "    a = random.random()\n"                      # stdlib
+        "    b = rnd.randint(1, 2)\n"                    # stdlib
+        "    c = pick([1, 2])\n"                         # stdlib
+        "    d = np.random.normal()\n"                   # numpy
+        "    e = numpy.random.rand()\n"                  # numpy
+        "    f = nr.choice([1])\n"                       # numpy
+        "    g = binomial(1, 0.5)\n"                     # numpy
+        "    h = dist.rvs()\n"                           # numpy (scipy)
+        "    i = df.sample(2)\n"                         # numpy (pandas)
+        "    j = df.sample(2, random_state=3)\n"         # other
+        "    k = np.random.default_rng(1)\n"             # other
+        "    l = random.Random(2)\n"                     # other
+        "    return a\n"
+        "def mutate(x=[]):\n"
+        "    global COUNTER\n"
+        "    COUNTER += 1\n"                             # global+=
+        "    COLS.append('b')\n"                         # imported module-level list
+        "    consts.K.D['z'] = 1\n"                      # class-level dict through module attribute
+        "    KK.Inner.L.extend([2])\n"                   # nested class through alias
+        "    cols = consts.COLS\n"
+        "    cols.insert(0, 'c')\n"                      # local alias
+        "    del CACHE['q']\n"                           # del on module-level dict
+        "    x.append(1)\n"                              # mutable default
+        "    local = []\n"
+        "    local.append(1)\n"                          # NOT shared
+        "    consts.NAME = 'y'\n"                        # module attribute rebinding
+        "class Comp:\n"
+        "    SHARED = {}\n"
+        "    def setup(self, m):\n"
+        "        self.d = KK.D\n"
+        "        self.d.update(m)\n"                     # self alias of a class-level dict
+        "    def other(self):\n"
+        "        self.SHARED.clear()\n"                  # class-level through self
+        "        self.own = {}\n"
+        "        self.own.update({1: 2})\n"              # NOT shared
+        "    @classmethod\n"
+        "    def cm(cls):\n"
+        "        cls.SHARED['k'] = 1\n"),
+    "unreachable_mod.py": "import random\nX = []\ndef f():\n    X.append(random.random())\n",
+}
+
+SELFTEST_EXPECT = {
+    "rng": sorted([("simulation_stub.py", 14, "stdlibRandom"), ("simulation_stub.py", 15, "stdlibRandom"),
+                   ("simulation_stub.py", 16, "stdlibRandom"), ("simulation_stub.py", 17, "numpyGlobal"),
+                   ("simulation_stub.py", 18, "numpyGlobal"), ("simulation_stub.py", 19, "numpyGlobal"),
+                   ("simulation_stub.py", 20, "numpyGlobal"), ("simulation_stub.py", 21, "numpyGlobal"),
+                   ("simulation_stub.py", 22, "numpyGlobal"), ("simulation_stub.py", 23, "other"),
+                   ("simulation_stub.py", 24, "other"), ("simulation_stub.py", 25, "other")]),
+    "mut": sorted([("simulation_stub.py", 29, "simulation_stub:COUNTER", "global+="),
+                   ("simulation_stub.py", 30, "consts:COLS", ".append"),
+                   ("simulation_stub.py", 31, "consts:K.D", "[]="),
+                   ("simulation_stub.py", 32, "consts:K.Inner.L", ".extend"),
+                   ("simulation_stub.py", 34, "consts:COLS", ".insert"),
+                   ("simulation_stub.py", 35, "simulation_stub:CACHE", "del[]"),
+                   ("simulation_stub.py", 36, "simulation_stub:mutate(<default x>)", ".append"),
+                   ("simulation_stub.py", 39, "consts:NAME", "attr="),
+                   ("simulation_stub.py", 44, "consts:K.D", ".update"),
+                   ("simulation_stub.py", 46, "simulation_stub:Comp.SHARED", ".clear"),
+                   ("simulation_stub.py", 51, "simulation_stub:Comp.SHARED", "[]=")]),
+    "points": sorted([("ldar_sim.py", "dayLoop", True), ("initialization/initialize_emissions.py", "emissionLoop", False),
+                      ("initialization/initialize_emissions.py", "emissionLoop", True),
+                      ("initialization/initialize_infrastructure.py", "infrastructure", True),
+                      ("initialization/initialize_infrastructure.py", "infrastructure", False)]),
+}
+
+
+def extractor_selftest(ctx):
+    root = tempfile.mkdtemp(prefix="ldarverif_c12x_")
+    try:
+        src = os.path.join(root, "LDAR_Sim", "src")
+        for rel, text in SELFTEST_FILES.items():
+            p = os.path.join(src, rel)
+            os.makedirs(os.path.dirname(p), exist_ok=True)
+            with open(p, "w") as fh:
+                fh.write(text)
+        t = EX.Extractor(root).run().tables()
+        got = {
+            "rng": sorted((r["file"], r["line"], r["gen"]) for r in t["rngSites"]),
+            "mut": sorted((m["file"], m["line"], m["target"], m["op"]) for m in t["sharedMutations"]),
+            "points": sorted((p["file"], p["kind"], p["seeded"]) for p in t["seedPoints"]),
+        }
+        ok = True
+        for k in ("rng", "mut", "points"):
+            exp = [tuple(x) for x in SELFTEST_EXPECT[k]]
+            if got[k] != exp:
+                ok = False
+                ctx.broke(f"extractor self-test ({k})", json.dumps({"missing": [x for x in exp if x not in got[k]],
+                                                                    "unexpected": [x for x in got[k] if x not in exp]}, indent=1))
+        if "unreachable_mod" in t["reachable_modules"]:
+            ok = False
+            ctx.broke("extractor self-test (reachability)", "unreachable_mod counted as reachable")
+        # an unparsable file must be a loud failure
+        with open(os.path.join(src, "broken.py"), "w") as fh:
+            fh.write("x = (\n")
+        try:
+            EX.Extractor(root)
+            ok = False
+            ctx.broke("extractor self-test (parse failure)", "unparsable file did not raise")
+        except EX.ExtractError:
+            pass
+        ctx.evaluations += 1
+        ctx.count("extractor_selftest_ok" if ok else "extractor_selftest_failed")
+        if ok:
+            ctx.nontrivial.add("extractor-selftest")
     finally:
         shutil.rmtree(root, ignore_errors=True)
